@@ -258,10 +258,21 @@ func ruleRefShapes(c *Ctx) {
 				args := callArgs(call.Common())
 				bi := 2
 				if sf := call.Common().StaticCallee(); sf != nil {
+					var bools []int
+					named := -1
 					for k, prm := range sf.Params {
 						if bt, isB := prm.Type().Underlying().(*types.Basic); isB && bt.Kind() == types.Bool && k < len(args) {
-							bi = k
+							bools = append(bools, k)
+							if strings.Contains(strings.ToLower(prm.Name()), "indirect") {
+								named = k
+							}
 						}
+					}
+					switch {
+					case named >= 0:
+						bi = named
+					case len(bools) == 1:
+						bi = bools[0]
 					}
 				}
 				b, isC := constBool(args[bi])
